@@ -88,7 +88,17 @@ func (e *Exec) builtin(b *ssa.Builtin, cc *ssa.CallCommon, args []value) value {
 			}
 			cp := make([]value, len(src))
 			for i := range src {
+				if e.race.on {
+					e.raceRecord(&src[i], false, false, "append (source element)")
+				}
 				cp[i] = copyVal(src[i])
+			}
+			if e.race.on && len(dst)+len(cp) <= cap(dst) {
+				// appending within the capacity writes the backing array in place
+				full := dst[:cap(dst)]
+				for i := len(dst); i < len(dst)+len(cp); i++ {
+					e.raceRecord(&full[i], true, false, "append (in place)")
+				}
 			}
 			return append(dst, cp...)
 		case string, SStr:
@@ -110,6 +120,10 @@ func (e *Exec) builtin(b *ssa.Builtin, cc *ssa.CallCommon, args []value) value {
 		case []value:
 			tmp := make([]value, len(src))
 			for i := range src {
+				if e.race.on && i < len(dst) {
+					e.raceRecord(&src[i], false, false, "copy (source element)")
+					e.raceRecord(&dst[i], true, false, "copy (destination element)")
+				}
 				tmp[i] = copyVal(src[i])
 			}
 			n = copy(dst, tmp)
